@@ -187,6 +187,9 @@ func Event(name string, idx ...int)           {}
 func Before(a, b string, ia, ib int) bool     { return true }
 func Happened(name string, idx ...int) bool   { return true }
 
+// ThreadID is the index of the current model thread (0 = harness main; spawn order). Engine only.
+func ThreadID() int { return 0 }
+
 // Time builds a time.Time from a nanosecond instant (symbolically: the engine's time model).
 func Time(ns int64) time.Time { return time.Unix(0, ns) }
 
